@@ -405,6 +405,46 @@ def run(ctx):
             tv = list(amp.vm.trainable_vars)
             ctx.check("invariant: VarsManager structure (icontract)", len(tv) == len(set(tv)), {"card": cards.short(card)}, mechanism="trainable duplicates in loaded model")
 
+    # ------------------------------------------------------------ coordinate switches on the couplings of a real model: the complex value a
+    # coupling contributes is observable as the density (same events, same charges) before and after rp2xy_all / xy2rp_all / std_polar_all
+    KF_CP_SWITCH = "complex value changed by rp2xy_all [CP-violating chain couplings: the charge-dependent value r+-dr, phi+-dphi]"
+    n_sw = ctx.pick(8, 120)
+    for i, rng in ctx.cases("model_switch", n_sw, budget_s=ctx.pick(150, 900)):
+        from ..gen import cards
+
+        cp_chains = i % 2 == 1
+        try:
+            card = cards.CardGen(rng, "_c16Ws%di%d" % (ctx.seed, i), nbody=3, n_chains=(2, 3), res_per_slot=(1, 2), final_j2=(0, 0, 1, 2), models=("default", "BW"), decay_opts_prob=0.0).make()
+            if cp_chains:
+                card["config"]["decay_chain"] = {"$all": {"is_cp": True}}
+            with contextlib.redirect_stdout(io.StringIO()):
+                cfg = cards.load(card)
+                amp = cfg.get_amplitude()
+                amp.set_params(cards.random_params(amp, (ctx.seed, i)))
+        except Exception as e:
+            ctx.count("switch_card_failed")
+            continue
+        ps = cards.events(card, 24, rng, classes=False)
+        ex = {"charge_conjugation": rng.choice([1.0, -1.0], 24)} if cp_chains else {}
+        f0, _ = cards.density(cfg, ps, **ex)
+        if not np.median(f0) > 1e-20:
+            continue
+        for opname in ("rp2xy_all", "xy2rp_all", "std_polar_all"):
+            try:
+                getattr(amp.vm, opname)()
+                f1, _ = cards.density(cfg, ps, **ex)
+            except Exception as e:
+                ctx.violation("model: coordinate switch preserves the complex value", ctx.exc_witness(e, op=opname, card=cards.short(card)), mechanism="coordinate switch on a model raises: " + opname)
+                break
+            dv = float(np.max(np.abs(f1 - f0) / (np.abs(f0) + 1e-3 * np.median(f0))))
+            ctx.check("model: coordinate switch preserves the complex value", dv < 1e-9,
+                      lambda: {"op": opname, "cp_violating_chain_couplings": cp_chains, "max_relative_change_of_the_density": dv, "card": cards.short(card), "config": card["config"]},
+                      mechanism=KF_CP_SWITCH if (cp_chains and opname == "rp2xy_all") else "density changed by %s on a loaded model%s" % (opname, " (CP-violating couplings)" if cp_chains else ""))
+            if dv >= 1e-9:
+                break
+        ctx.case(("switch", cp_chains, cards.card_digest_key(card)), nontrivial=True)
+        ctx.covered("model_switch_cp_couplings", cp_chains)
+
     # ------------------------------------------------------------ the same semantics when a configuration applies the operations
     # (constrains: fix_var / free_var / var_range / var_equal on overlapping names, in the order ConfigLoader applies them)
     n_c = ctx.pick(10, 200)
